@@ -588,7 +588,7 @@ fn type_cells() -> Vec<(String, Option<u16>, &'static str)>
 	{
 		add(format!("extern fn f(x: {});\n", t), None, "extern-param");
 	}
-	for t in ["u128", "i128", "S", "W"]
+	for t in ["u128", "i128", "S", "W", "bool", "&bool", "[]bool", "[]i128", "[]S", "&[]bool", "&u128", "[]u128"]
 	{
 		add(format!("extern fn f(x: {});\n", t), Some(358), "extern-param");
 	}
@@ -815,6 +815,60 @@ impl Stream for TypeTerms
 	}
 }
 
+/// words around their declared size, padding included (C10's generator): a
+/// word whose members need more than it declares is E380
+struct WordSizes;
+impl Stream for WordSizes
+{
+	fn name(&self) -> String
+	{
+		"word-sizes".into()
+	}
+	fn count(&self, tier: Tier) -> u64
+	{
+		tier.pick(3000, 60_000)
+	}
+	fn choice_len(&self) -> usize
+	{
+		40
+	}
+	fn stride(&self) -> u64
+	{
+		8
+	}
+	fn run(&self, _idx: u64, c: &mut Choices, ctx: &RunCtx) -> CaseOut
+	{
+		let mut out = CaseOut::default();
+		let w = crate::c10::word_case(c);
+		out.key = fnv(&w.src);
+		out.nontrivial = w.members >= 2 && w.size != w.raw;
+		out.class(if w.size > w.declared { "word:too-large" } else if w.size < w.declared { "word:underfilled" } else { "word:exact" });
+		let o = alpha::analyze_one(&w.src);
+		let detail = json!({"source": w.src, "members_need_bytes": w.size, "declared_bytes": w.declared});
+		if let Some(e) = &o.internal_error
+		{
+			out.fail(format!("internal error {}", e.chars().take(50).collect::<String>()), detail);
+		}
+		else if w.size > w.declared && o.ok
+		{
+			out.fail(format!("a word whose members need {} bytes is accepted as word{}", w.size, w.declared * 8), detail);
+		}
+		else if w.size > w.declared && !o.codes.contains(&380)
+		{
+			out.fail(format!("oversized word rejected with {:?} instead of E380: {}", o.codes, w.shape), detail);
+		}
+		else if w.size == w.declared && !o.ok
+		{
+			out.fail(format!("exactly filled word rejected {:?}: {}", o.codes, w.shape), detail);
+		}
+		if ctx.want_sample
+		{
+			out.sample = Some(json!({"word": w.shape, "members_need_bytes": w.size}));
+		}
+		out
+	}
+}
+
 /// duplicates, over-filled words, non-constant array lengths, with random
 /// surroundings
 struct IllFormed;
@@ -930,7 +984,7 @@ impl Check for C11
 	}
 	fn rule(&self) -> String
 	{
-		"(a) generated executable programs (>= 3 top-level declarations), one third with a planted ill-formed declaration (13 kinds: E400/E401/E402/E405/E413/E415/E421/E423/E424/E425/E426/E380/E801), each printed in the generated, the reversed and 2 (quick) / 4 (thorough) random orders; (b) random dependency graphs over 3-8 constants and structures (constant uses constant, constant uses |:S|, structure embeds structure, array-length names a constant, pointer members that never count), half of them with a planted cycle of 1-3 nodes; (c) every documented type/position cell (var, const, parameter, return, struct member, word member, extern parameter/return, size-of) — 76 cells, exhaustive; (c2) EVERY type term of nesting depth <= 3 over {[2]T, []T, [..]T, &T} x {i32, u8, bool, S, W} in variable, struct-member and parameter position (1275 cells) against the rule of docs E350: an element type must have a compile-time known size, which []T and [..]T lack and &T has - invalid terms must be rejected with a code in E350-E359, terms built from [N] and & only must be accepted as variables and members (and as parameters when a pointer is outermost), everything else is run but not asserted; (d) duplicate declarations of every kind, words over-filled by 1-16 bytes, array lengths naming a variable or parameter, at a random position among valid declarations. Oracle: (a) same verdict, same multiset of codes and (accepted) same stdout == reference interpreter in every order, planted code among the codes; (b) acyclic => accepted and printed constants/sizes equal the dependency model, cycle => E413/E415/E416 by the kinds on the cycle; (c)(d) the documented code, or acceptance. Non-trivial: always for (a)(c)(d); graphs with >= 4 nodes and >= 2 edges; distinct by source.".into()
+		"(a) generated executable programs (>= 3 top-level declarations), one third with a planted ill-formed declaration (13 kinds: E400/E401/E402/E405/E413/E415/E421/E423/E424/E425/E426/E380/E801), each printed in the generated, the reversed and 2 (quick) / 4 (thorough) random orders; (b) random dependency graphs over 3-8 constants and structures (constant uses constant, constant uses |:S|, structure embeds structure, array-length names a constant, pointer members that never count), half of them with a planted cycle of 1-3 nodes; (c) every documented type/position cell (var, const, parameter, return, struct member, word member, extern parameter/return, size-of) — 76 cells, exhaustive; (c2) EVERY type term of nesting depth <= 3 over {[2]T, []T, [..]T, &T} x {i32, u8, bool, S, W} in variable, struct-member and parameter position (1275 cells) against the rule of docs E350: an element type must have a compile-time known size, which []T and [..]T lack and &T has - invalid terms must be rejected with a code in E350-E359, terms built from [N] and & only must be accepted as variables and members (and as parameters when a pointer is outermost), everything else is run but not asserted; (d) duplicate declarations of every kind, words over-filled by 1-16 bytes, words over-filled by alignment padding alone (C10's word generator), array lengths naming a variable or parameter, at a random position among valid declarations. Oracle: (a) same verdict, same multiset of codes and (accepted) same stdout == reference interpreter in every order, planted code among the codes; (b) acyclic => accepted and printed constants/sizes equal the dependency model, cycle => E413/E415/E416 by the kinds on the cycle; (c)(d) the documented code, or acceptance. Non-trivial: always for (a)(c)(d); graphs with >= 4 nodes and >= 2 edges; distinct by source.".into()
 	}
 	fn assumptions(&self) -> Vec<String>
 	{
@@ -946,6 +1000,7 @@ impl Check for C11
 			Box::new(Graphs),
 			Box::new(TypePositions),
 			Box::new(TypeTerms),
+			Box::new(WordSizes),
 			Box::new(IllFormed),
 		]
 	}
